@@ -87,13 +87,22 @@ Definition advance (r : reg) (s : N) (p : pbts) : reg * list timer :=
   let '(f, keep) := fire (r_wm r1) (r_timers r1) in
   ({| r_ups := r_ups r1; r_wm := r_wm r1; r_timers := keep |}, f).
 
+(* the consumer of the iterator stops after k timers (yield returns false: a handler error in the middle of the
+   advance): the table and the cached composite STAY advanced, the due timers not handed out stay in the store
+   (they fire with the next advance) *)
+Definition advance_stop (r : reg) (s : N) (p : pbts) (k : nat) : reg * list timer :=
+  let r1 := reg_note r s p in
+  let '(f, keep) := fire (r_wm r1) (r_timers r1) in
+  ({| r_ups := r_ups r1; r_wm := r_wm r1; r_timers := skipn k f ++ keep |}, firstn k f).
+
 (* API-level history of one registry *)
-Inductive rop := RAdv (s : N) (p : pbts) | RSet (k : N) (t : Z).
+Inductive rop := RAdv (s : N) (p : pbts) | RSet (k : N) (t : Z) | RAdvStop (s : N) (p : pbts) (k : nat).
 
 Definition reg_step (r : reg) (o : rop) : reg * list timer :=
   match o with
   | RAdv s p => advance r s p
   | RSet k t => (set_timer r k t, [])
+  | RAdvStop s p k => advance_stop r s p k
   end.
 
 Fixpoint reg_run (r : reg) (ops : list rop) : reg :=
@@ -135,6 +144,7 @@ Fixpoint rop_msgs (ops : list rop) : list (N * Z) :=
   | [] => []
   | RAdv s p :: r => (s, as_time p) :: rop_msgs r
   | RSet _ _ :: r => rop_msgs r
+  | RAdvStop s p _ :: r => (s, as_time p) :: rop_msgs r
   end.
 
 (* ---- Operator: event batcher + handler call + timers, single-threaded event loop ----
@@ -143,8 +153,9 @@ Inductive hevent :=
 | HK (id : N) (key : N) (timers : list pbts)     (* keyed event; the payload scripts the timers the handler sets *)
 | HT (key : N) (ts : Z).                          (* TimerExpired *)
 
-(* the handler: any function from (Watermark told, events of the batch) to key results (key, new timers) *)
-Definition handler := Z * Z -> list hevent -> list (N * list pbts).
+(* the handler: any function from (Watermark told, events of the batch) to key results (key, new timers);
+   None = ProcessEventBatch returns an error *)
+Definition handler := Z * Z -> list hevent -> option (list (N * list pbts)).
 
 Record call := { c_told : Z * Z; c_events : list hevent }.
 
@@ -155,23 +166,29 @@ Definition op_new (ids : list N) : opst := {| o_reg := reg_new ids; o_batch := [
 Definition apply_results (r : reg) (res : list (N * list pbts)) : reg :=
   fold_left (fun r kr => fold_left (fun r p => set_timer r (fst kr) (as_time p)) (snd kr) r) res r.
 
-(* processEventBatch(CurrentBatch) *)
-Definition process_batch (h : handler) (st : opst) : opst * list call :=
+(* processEventBatch(CurrentBatch); the flag says whether the handler succeeded.  On an error the batch is gone
+   (it was flushed before the call), nothing the handler returned is applied, and the error propagates. *)
+Definition process_batch (h : handler) (st : opst) : opst * list call * bool :=
   match o_batch st with
-  | [] => (st, [])
+  | [] => (st, [], true)
   | evs =>
       let told := pb_new (r_wm (o_reg st)) in
-      let res := h told evs in
-      ({| o_reg := apply_results (o_reg st) res; o_batch := [] |}, [{| c_told := told; c_events := evs |}])
+      let cl := {| c_told := told; c_events := evs |} in
+      match h told evs with
+      | Some res => ({| o_reg := apply_results (o_reg st) res; o_batch := [] |}, [cl], true)
+      | None => ({| o_reg := o_reg st; o_batch := [] |}, [cl], false)
+      end
   end.
 
 (* eventBatcher.Add; if IsFull { processEventBatch } *)
-Definition add_event (h : handler) (m : nat) (st : opst) (e : hevent) : opst * list call :=
+Definition add_event (h : handler) (m : nat) (st : opst) (e : hevent) : opst * list call * bool :=
   let st1 := {| o_reg := o_reg st; o_batch := o_batch st ++ [e] |} in
-  if Nat.leb m (length (o_batch st1)) then process_batch h st1 else (st1, []).
+  if Nat.leb m (length (o_batch st1)) then process_batch h st1 else (st1, [], true).
 
 (* handleWatermark: the iterator is consumed lazily, a full batch is processed in the middle of it, and the
-   timers the handler sets there go into the same store.  c is the composite captured by the iterator. *)
+   timers the handler sets there go into the same store.  c is the composite captured by the iterator.  A handler
+   error makes handleWatermark return from inside the loop: the iterator stops, the due timers not yet handed
+   out stay in the store, and the cached composite stays where reg_note put it. *)
 Fixpoint fire_loop (h : handler) (m : nat) (c : Z) (fuel : nat) (st : opst) : opst * list call :=
   match fuel with
   | O => (st, [])
@@ -183,9 +200,11 @@ Fixpoint fire_loop (h : handler) (m : nat) (c : Z) (fuel : nat) (st : opst) : op
           else
             let r := o_reg st in
             let st1 := {| o_reg := {| r_ups := r_ups r; r_wm := r_wm r; r_timers := rest |}; o_batch := o_batch st |} in
-            let '(st2, calls) := add_event h m st1 (HT k t) in
-            let '(st3, calls') := fire_loop h m c fuel' st2 in
-            (st3, calls ++ calls')
+            let '(st2, calls, ok) := add_event h m st1 (HT k t) in
+            if ok then
+              let '(st3, calls') := fire_loop h m c fuel' st2 in
+              (st3, calls ++ calls')
+            else (st2, calls)
       end
   end.
 
@@ -198,14 +217,14 @@ Inductive oop :=
 
 Definition op_step (h : handler) (m : nat) (st : opst) (o : oop) : opst * list call :=
   match o with
-  | OEv _ id key timers => add_event h m st (HK id key timers)
+  | OEv _ id key timers => fst (add_event h m st (HK id key timers))
   | OWm s p =>
       let r1 := reg_note (o_reg st) s p in
       fire_loop h m (r_wm r1) (S (length (r_timers r1))) {| o_reg := r1; o_batch := o_batch st |}
   | OComplete _ =>
       (* handleSourceComplete: the pending batch is processed, the runner is marked inactive; its last report
          STAYS in the upstream table - a finished runner still counts in the minimum *)
-      process_batch h st
+      fst (process_batch h st)
   | ODeploy ids => ({| o_reg := reg_new ids; o_batch := o_batch st |}, [])
   end.
 
